@@ -635,6 +635,7 @@ func (r *Request) Send() (*Response, error) {
 // Reset clears the Request object, returning it to its default state.
 // Used by ReleaseRequest to recycle the object.
 func (r *Request) Reset() {
+	r.client = nil
 	r.url = ""
 	r.method = fiber.MethodGet
 	r.userAgent = ""
